@@ -945,3 +945,11 @@ pub fn replay(v: &J) -> i32 {
     println!("re-run `./check C02 quick`; expression: {}", v["prql"]);
     1
 }
+
+pub fn debug_stmt(sql: &str) {
+    let dial = sqlparser::dialect::GenericDialect {};
+    match sqlparser::parser::Parser::parse_sql(&dial, sql) {
+        Ok(s) => println!("{}", serde_json::to_string(&s).unwrap()),
+        Err(e) => println!("ERR {e}"),
+    }
+}
